@@ -1,4 +1,3 @@
-import math
 import numba
 import numpy as np
 
@@ -128,27 +127,27 @@ def _line_to_line(line_point1, line_direction1, line_point2, line_direction2,
     diff = line_point1 - line_point2
     a12 = -np.dot(line_direction1, line_direction2)
     b1 = np.dot(line_direction1, diff)
-    c = np.dot(diff, diff)
     det = 1.0 - a12 * a12
 
     if abs(det) >= epsilon:
         b2 = -np.dot(line_direction2, diff)
         t1 = (a12 * b2 - b1) / det
         t2 = (a12 * b1 - b2) / det
-        dist_squared = (
-            t1 * (t1 + a12 * t2 + 2.0 * b1)
-            + t2 * (a12 * t1 + t2 + 2.0 * b2) + c)
         closest_point_line2 = line_point2 + t2 * line_direction2
     else:  # parallel lines
         t1 = -b1
         t2 = 0.0
-        dist_squared = b1 * t1 + c
         closest_point_line2 = line_point2
 
     closest_point_line1 = line_point1 + t1 * line_direction1
 
-    return (math.sqrt(abs(dist_squared)), closest_point_line1,
-            closest_point_line2, t1, t2)
+    # The distance is taken from the two closest points. The quadratic form
+    # t1 * (t1 + a12 * t2 + 2 * b1) + t2 * (a12 * t1 + t2 + 2 * b2) + c cancels
+    # terms of size t^2: for nearly parallel lines that meet far away its
+    # rounding error exceeds the distance.
+    dist = np.linalg.norm(closest_point_line1 - closest_point_line2)
+
+    return dist, closest_point_line1, closest_point_line2, t1, t2
 
 
 def line_to_line_segment(
